@@ -7,7 +7,8 @@ def enc_str(s):
 
 
 def enc_kvs(d):
-    return " ".join(["%d" % len(d)] + [enc_str(k) + " " + enc_plain(v) for k, v in d.items()])
+    # the model's maps are key-sorted (Python str order = code-point lexicographic = scmp)
+    return " ".join(["%d" % len(d)] + [enc_str(k) + " " + enc_plain(d[k]) for k in sorted(d)])
 
 
 def enc_plain(v):
